@@ -325,10 +325,11 @@ pub fn run(scn: &Value) -> Value {
 }
 
 /// The stream served by the real `Session::manage` over a loopback socket, at a real pace: the producer pushes one message every `gap`
-/// milliseconds.  The session's deadline (OHKAMI_KEEPALIVE_TIMEOUT, read once per process) is set to 1 second for this worker process.
+/// milliseconds.  The session's deadline (OHKAMI_KEEPALIVE_TIMEOUT, read once per process) is set to 3 seconds for this worker process
+/// (the scenarios stay far from it on either side: streams of at most 0.2 s, and streams of 4.8 s).
 fn run_session(msgs: &[String], table: &[(String, String)], gap: u64) -> Value {
     use tokio::io::{AsyncReadExt, AsyncWriteExt};
-    std::env::set_var("OHKAMI_KEEPALIVE_TIMEOUT", "1");
+    std::env::set_var("OHKAMI_KEEPALIVE_TIMEOUT", "3");
     let m2: Vec<String> = msgs.to_vec();
     let o = Ohkami::new(("/sse".GET(move || { let m = m2.clone(); async move {
         DataStream::new(move |mut h: ohkami::sse::handle::Stream<String>| async move { for x in m { h.send(x); tokio::time::sleep(std::time::Duration::from_millis(gap)).await } })
@@ -342,7 +343,7 @@ fn run_session(msgs: &[String], table: &[(String, String)], gap: u64) -> Value {
         let server = tokio::spawn(async move { v::session(&router, sv, peer.ip()).await });
         let _ = c.write_all(b"GET /sse HTTP/1.1\r\nHost: x\r\nAccept: text/event-stream\r\nConnection: close\r\n\r\n").await;
         let mut out = vec![]; let mut buf = vec![0u8; 65536];
-        loop { match tokio::time::timeout(std::time::Duration::from_millis(8000), c.read(&mut buf)).await { Ok(Ok(0)) | Ok(Err(_)) | Err(_) => break, Ok(Ok(n)) => out.extend_from_slice(&buf[..n]) } }
+        loop { match tokio::time::timeout(std::time::Duration::from_millis(15000), c.read(&mut buf)).await { Ok(Ok(0)) | Ok(Err(_)) | Err(_) => break, Ok(Ok(n)) => out.extend_from_slice(&buf[..n]) } }
         let _ = tokio::time::timeout(std::time::Duration::from_millis(3000), server).await;
         out
     });
